@@ -1,14 +1,25 @@
 /-
-  C05 for the SELECT core (Task X, stage 4) — ONLY A FIRST STEP: `Pos()` of the three root nodes.
+  C05 for the SELECT core (Task X, stage 4) — PARTIAL.
 
-  `query_pos_first_token`: for an accepted token list, `Pos()` of the QueryStatement, of its QueryExpr (`Query` or
-  `Select`) and of the `Select` node is the `pos` of the FIRST token (the SELECT keyword).
-  NOT proved (see doc/reports/TASK_X_REPORT.md §4): `End()` of these nodes, and alignment / range / nesting / order of the
-  inner nodes (items, aliases, FROM … LIMIT, and the nodes of the expression slots, for which `MF.Expr.place_ok` /
-  `NodeIn.facts` of C05 for expressions apply at the slot's token index).  On every OK request the QUERY channel compares
-  `Pos()` / `End()` of EVERY node with Go.
+  Proved (function level: for the call that builds the node, on ANY suffix `ts` of a token list with the lexer's token
+  facts `TokensOK`): the node's `(Pos(), End())` lies exactly over a run of the tokens the call consumed — `Pos()` is the
+  `pos` of the first, `End()` the `end` of the last (`Over`):
+    select items (Star: `Star + 1` is the end of the one-byte `*`; DotStar; Alias; ExprSelectItem)   — `item_span`
+    AsAlias (with and without AS)                                                                   — `alias_span`
+    TableName / PathTableExpr with optional alias, From                                             — `table_span`, `from_span`
+    Where, Having                                                                                   — `where_span`, `having_span`
+    Limit with its Offset child (a sub-run at the end of the Limit's run), IntLiteral / Param        — `limit_span`
+    the root of every expression slot (through `MF.Expr.place_ok`, C05 for expressions)              — `expr_slot_span`
+  and, for lexer output, what `Over` means in bytes: token-aligned, `Pos() < End() ≤ len(input)` (`span_facts`), a child
+  run inside a parent run is nested (`span_nested`), two runs in source order do not overlap (`span_ordered`).
+  `query_pos_first_token`: `Pos()` of QueryStatement / QueryExpr / Select is the `pos` of the first token.
+  NOT proved: GroupBy, OrderBy and its items, the further select items as a list, `End()` of Select / Query /
+  QueryStatement, and the assembly "every node of the tree returned by ParseQuery" (the per-function statements are not yet
+  threaded through parseSelect); the inner nodes of expression slots are covered by `MF.Props.C05.expr_positions` only
+  when the slot is the whole input.  The QUERY channel compares `Pos()` / `End()` of EVERY node with Go on every OK request.
 -/
 import MF.Proofs.QuerySound
+import MF.Proofs.QueryPos
 import MF.Spec.QueryPrintToks
 namespace MF.Props.C05
 open MF MF.Expr MF.Query
@@ -68,6 +79,51 @@ theorem query_pos_first_token {fuel : Nat} {ts : List Token} {q : QueryStatement
             simp only at heq; subst heq
             exact ⟨hpos, hpos⟩
   · cases hk
+
+theorem item_span {len f : Nat} {ts rest : List Token} {i : SelectItem} (hT : TokensOK len ts)
+    (h : parseSelectItem f ts = .ok (i, rest)) : ∃ pre, ts = pre ++ rest ∧ Over (posItem i) (endItem i) pre :=
+  parseSelectItem_over hT h
+
+theorem alias_span {ts rest : List Token} {a : AsAlias} (h : tryParseAsAlias ts = .ok (some a, rest)) :
+    ∃ pre, ts = pre ++ rest ∧ Over (posAs a) (endAs a) pre := tryParseAsAlias_over h
+
+theorem table_span {f : Nat} {ts rest : List Token} {t : TableExpr} (h : parseTableExpr f ts = .ok (t, rest)) :
+    ∃ pre, ts = pre ++ rest ∧ Over (posTable t) (endTable t) pre := parseTableExpr_over h
+
+theorem from_span {f : Nat} {ts rest : List Token} {fr : From} (h : tryParseFrom f ts = .ok (some fr, rest)) :
+    ∃ pre, ts = pre ++ rest ∧ Over fr.from_ (endFrom fr) pre := tryParseFrom_over h
+
+theorem where_span {len f : Nat} {ts rest : List Token} {w : Where} (hT : TokensOK len ts)
+    (h : tryParseWhere f ts = .ok (some w, rest)) : ∃ pre, ts = pre ++ rest ∧ Over w.where_ (endWhere w) pre :=
+  tryParseWhere_over hT h
+
+theorem having_span {len f : Nat} {ts rest : List Token} {w : Having} (hT : TokensOK len ts)
+    (h : tryParseHaving f ts = .ok (some w, rest)) : ∃ pre, ts = pre ++ rest ∧ Over w.having (endHaving w) pre :=
+  tryParseHaving_over hT h
+
+theorem limit_span {len : Nat} {ts rest : List Token} {l : Limit} (hT : TokensOK len ts)
+    (h : tryParseLimit ts = .ok (some l, rest)) :
+    ∃ pre, ts = pre ++ rest ∧ Over l.limit (endLimit l) pre ∧
+      ∀ o, l.offset = some o → ∃ a b, pre = a ++ b ∧ a ≠ [] ∧ Over o.offset (endOffset o) b := tryParseLimit_over hT h
+
+theorem expr_slot_span {len f : Nat} {ts rest : List Token} {e : PExpr} (hT : TokensOK len ts)
+    (h : parsePExpr f ts = .ok (e, rest)) : ∃ pre, ts = pre ++ rest ∧ Over (posP e) (endP e) pre := parsePExpr_over hT h
+
+/-- lexer output satisfies the token facts -/
+theorem lexed_tokensOK {buf : Bytes} {ts : List Token} (hl : Lex.lexAll buf = .ok ts) : TokensOK buf.length ts :=
+  ⟨(lexAll_lexed hl).tok, Lex.lexAll_len hl⟩
+
+theorem span_facts {buf : Bytes} {ts l run r : List Token} (hl : Lex.lexAll buf = .ok ts) (hts : ts = l ++ run ++ r)
+    (hr : r ≠ []) {p e : Nat} (h : Over p e run) :
+    (∃ t ∈ ts, t.pos = p) ∧ (∃ t ∈ ts, t.end = e) ∧ p < e ∧ e ≤ buf.length := over_facts hl hts hr h
+
+theorem span_nested {buf : Bytes} {ts l a c b r : List Token} (hl : Lex.lexAll buf = .ok ts)
+    (hts : ts = l ++ (a ++ c ++ b) ++ r) (hr : r ≠ []) {p e p' e' : Nat} (hp : Over p e (a ++ c ++ b)) (hc : Over p' e' c) :
+    p ≤ p' ∧ e' ≤ e := over_nested hl hts hr hp hc
+
+theorem span_ordered {buf : Bytes} {ts l c1 m c2 r : List Token} (hl : Lex.lexAll buf = .ok ts)
+    (hts : ts = l ++ c1 ++ m ++ c2 ++ r) {p1 e1 p2 e2 : Nat} (h1 : Over p1 e1 c1) (h2 : Over p2 e2 c2) : e1 ≤ p2 :=
+  over_ordered hl hts h1 h2
 
 /-- non-vacuity: leading blanks and a comment before SELECT -/
 example : (match Lex.lexAll (B "  /*c*/ select a FROM t LIMIT 1") with
